@@ -826,6 +826,8 @@ class FunTrans(object):
                 else:
                     fail(node, "missing argument %s" % sp_)
             fn = fn["variants"][tuple(key)]
+        if fn.get("tvariants"):
+            fn = self.pick_type_variant(fn, given_all, keywords, env, node)
         pnames = [p for p, _ in fn["params"]]
         given = given_all
         kwgiven = {}
@@ -842,7 +844,11 @@ class FunTrans(object):
                 fail(node, "unknown keyword argument %s" % kw.arg)
         for p, t in fn["params"]:
             if p in given:
-                ba, x, ta = self.expr(given[p], env)
+                anode = given[p]
+                if isinstance(anode, ast.Tuple) and isinstance(resolve(t), tuple) and resolve(t)[0] == "list":
+                    # a tuple display passed for a parameter that is only indexed: the list of the same elements
+                    anode = ast.copy_location(ast.List(elts=anode.elts, ctx=ast.Load()), anode)
+                ba, x, ta = self.expr(anode, env)
                 t2 = resolve(t)
                 if t2 == "float" and resolve(ta) == "int":
                     x = self.coerce_float(x, ta, node)
@@ -870,6 +876,42 @@ class FunTrans(object):
         v = self.fresh()
         self.callee_raises |= set(fn.get("raises", ()))
         return b + ["do %s <- %s K %s ;;" % (v, fn["coqname"], " ".join(xs))], v, fn["rtype"]
+
+    def pick_type_variant(self, fn, given, keywords, env, node):
+        """the variant of fn (the function itself or one of its "type_variants") whose parameter types are the types of the
+        arguments of this call; the arguments are translated once more by the caller (probe: counters are restored)"""
+        args = dict(given)
+        for kw in keywords:
+            if kw.arg is not None:
+                args[kw.arg] = kw.value
+        save, saver = self.counter, self.callee_raises
+        atypes = {}
+        for name, a in args.items():
+            try:
+                if isinstance(a, ast.Tuple):
+                    a = ast.copy_location(ast.List(elts=a.elts, ctx=ast.Load()), a)
+                atypes[name] = resolve(self.expr(a, env)[2])
+            except Untranslatable:
+                atypes[name] = None
+        self.counter, self.callee_raises = save, set(saver)
+
+        def concrete(t):
+            if isinstance(t, TVar) or t is None:
+                return False
+            if isinstance(t, tuple) and t[0] in ("list",):
+                return concrete(t[1])
+            if isinstance(t, tuple) and t[0] == "tuple":
+                return all(concrete(x) for x in t[1])
+            return True
+        for cand in [fn] + list(fn["tvariants"]):
+            ok = True
+            for pn, pt in cand["params"]:
+                at = atypes.get(pn)
+                if at is not None and concrete(at) and resolve(pt) != at and not (resolve(pt) == "float" and at == "int"):
+                    ok = False
+            if ok:
+                return cand
+        fail(node, "no type variant of %s fits the argument types" % fn["coqname"])
 
     def record_kwdefault(self, key, dnode, env):
         t = resolve(self.kwparams[key])
@@ -1929,6 +1971,9 @@ class World(object):
                 if "variants" in info:
                     info["variants"] = dict((k, dict(v, coqname="%s.%s" % (m.spec["coq_module"], v["coqname"])))
                                             for k, v in info["variants"].items())
+                if "tvariants" in info:
+                    info["tvariants"] = [dict(v, coqname="%s.%s" % (m.spec["coq_module"], v["coqname"]))
+                                         for v in info["tvariants"]]
             return info
         return None
 
@@ -1970,6 +2015,19 @@ def translate_blocks(repo_root, spec):
                     text, info = translate_variants(mt, fspec, mt.defs[fname])
                 else:
                     text, info = FunTrans(mt, fspec, mt.defs[fname]).translate()
+                    # "type_variants": the same Python function at other argument types (Python is untyped; each
+                    # variant is its own generated function <name>__<suffix>, chosen at a call site by the argument types)
+                    tv = []
+                    for var in fspec.get("type_variants", []):
+                        sub = dict(fspec, name=fspec["name"] + "__" + var["suffix"])
+                        sub["params"] = dict(fspec["params"], **var.get("params", {}))
+                        sub["returns"] = var.get("returns", fspec["returns"])
+                        sub.pop("type_variants")
+                        vtext, vinfo = FunTrans(mt, sub, mt.defs[fname]).translate()
+                        text += "\n" + vtext
+                        tv.append(vinfo)
+                    if tv:
+                        info["tvariants"] = tv
                 mt.funcs[fname] = info
                 blocks.append((fname, text, None))
             except Untranslatable as e:
@@ -2175,9 +2233,17 @@ SPEC = {
             {"name": "degree_elevation", "params": {"degree": "int", "ctrlpts": MAT},
              "kwargs": {"num": "int", "check_num": "bool"}, "returns": MAT},
             # the result is filled with None placeholders (row k keeps k of them): its slots have type optfloat = option T
+            # type_variants: surface_deriv_cpts also calls it on points taken from its own table (None-or-float slots)
             {"name": "curve_deriv_cpts",
              "params": {"dim": "int", "degree": "int", "kv": "list[float]", "cpts": MAT, "rs": "list[int]", "deriv_order": "int"},
-             "returns": "list[list[list[optfloat]]]"},
+             "returns": "list[list[list[optfloat]]]",
+             "type_variants": [{"suffix": "opt", "params": {"cpts": "list[list[optfloat]]"}}]},
+            # alias_ok: PKL[k][0][i][j] = PKu[k][i] stores points of the fresh tables PKu / PKuv, which are never updated
+            # afterwards; the points of PKL are only replaced as a whole
+            {"name": "surface_deriv_cpts",
+             "params": {"dim": "int", "degree": "list[int]", "kv": "list[list[float]]", "cpts": MAT, "cpsize": "list[int]",
+                        "rs": "list[int]", "ss": "list[int]", "deriv_order": "int"},
+             "returns": "list[list[list[list[list[optfloat]]]]]", "alias_ok": True},
         ]},
         "fitting": {"file": "geomdl/fitting.py", "coq_module": "Fitting", "requires": ["PreludeExt"],
                     "imports": ["linalg"], "functions": [
